@@ -6,9 +6,11 @@ import ast
 from fractions import Fraction
 import extract
 from extract import ExtractError, lstr, llist
+from extractors import _norm_c05
 
 REL = "esr/fitting/test_all_Fisher.py"
 extract.MODELLED.append((REL, None, "convert_params"))
+extract.MODELLED.append((REL, None, "main"))
 
 ARRAYS = {"theta_ML": ".theta", "Fisher_diag": ".fisher"}
 UNARY_CALLS = {"np.sqrt": "sqrt", "numpy.sqrt": "sqrt", "math.sqrt": "sqrt", "np.log": "log", "numpy.log": "log",
@@ -311,4 +313,117 @@ def gen(stage):
     t += "/-- the code length `%s`  -- test_all_Fisher.py:%d -/\n" % (src(cls[0].value), cls[0].lineno)
     t += "def codelenExpr : E := %s\n" % _strip(codelen)
     t += extract.footer("Codelen")
+    return t
+
+
+@extract.extractor("FisherAlias")
+def gen_alias(stage):
+    """Generated/FisherAlias.lean (C07c): a table of its own, so that it is regenerated also where the expression extraction above fails"""
+    tree = extract._parse(stage, REL)
+    cp = extract.find_def(tree, "convert_params")
+    t = extract.header("FisherAlias", [REL + ":main", REL + ":convert_params"])
+    t += alias_table(tree, cp)
+    t += extract.footer("FisherAlias")
+    return t
+
+
+def alias_table(tree, cp):
+    """The in-place writes of the Fisher stage and where the written arrays come from (C07c): `convert_params` analysed as a whole
+    function (origin of a parameter = the caller's object), the per-function loop of `main` analysed as match.main is for C05
+    (_norm_c05.analyse), and the two joined at the call sites of `convert_params` inside the loop."""
+    mn = extract.find_def(tree, "main")
+    loops = [n for n in mn.body if isinstance(n, ast.For) and ast.unparse(n.iter) == "range(len(fcn_list_proc))"]
+    if len(loops) != 1:
+        raise ExtractError("test_all_Fisher.main: loop `for i in range(len(fcn_list_proc))` not found once")
+    loop = loops[0]
+    info = {}
+    mrows, own = _norm_c05.analyse(mn, loop, watch={"convert_params"}, info=info)
+    crows = _norm_c05.analyse_function(cp)
+    params = [a.arg for a in cp.args.args]
+    calls = sorted(info["calls"].items())
+    if not calls:
+        raise ExtractError("test_all_Fisher.main: no call of convert_params inside the loop over the functions")
+    for (ln, _), args in calls:
+        if len(args) > len(params):
+            raise ExtractError("test_all_Fisher.main line %d: more positional arguments than convert_params has parameters" % ln)
+    for n in ast.walk(loop):
+        if isinstance(n, ast.Call) and ast.unparse(n.func) == "convert_params" and any(k.arg in params for k in n.keywords if k.arg != "max_param"):
+            raise ExtractError("test_all_Fisher.main line %d: array argument of convert_params passed by keyword" % n.lineno)
+    # attempts: call in the body of a `try`, call in its `except NameError` handler
+    first, retry = [], []
+    for tr in [n for n in ast.walk(loop) if isinstance(n, ast.Try)]:
+        inb = [c.lineno for b in tr.body for c in ast.walk(b) if isinstance(c, ast.Call) and ast.unparse(c.func) == "convert_params"]
+        for h in tr.handlers:
+            inh = [c.lineno for b in h.body for c in ast.walk(b) if isinstance(c, ast.Call) and ast.unparse(c.func) == "convert_params"]
+            if inb and inh:
+                first += inb
+                retry += inh
+    seen = [ln for (ln, _), _ in calls]
+    if sorted(set(first + retry)) != sorted(seen) or len(first) != 1 or len(retry) > 1:
+        raise ExtractError("test_all_Fisher.main: calls of convert_params at lines %r are not (one first attempt, at most one retry in its handler)" % seen)
+    ownrow = info["ownrow"]
+
+    def kind(d, f):
+        return "fresh" if f else ("ownSlot" if d in ownrow else "shared")
+    ents = []            # (fn, target, origin, kind, call line, lines)
+    for t_, d, f, ls in mrows:
+        ents.append(("main", t_, d, kind(d, f), 0, ls))
+    retry_reads = False
+    slot_tables = set()
+    for t_, d, f, ls in crows:
+        a = _norm_c05.arg_of(d)
+        if f or a is None:
+            ents.append(("convert_params", t_, d, "fresh" if f else "shared", 0, ls))
+            continue
+        j = params.index(a)
+        for (ln, _), args in calls:
+            if j >= len(args):
+                raise ExtractError("test_all_Fisher.main line %d: argument %s of convert_params not passed positionally" % (ln, a))
+            for d2, f2 in sorted(args[j]):
+                k2 = kind(d2, f2)
+                ents.append(("convert_params", t_, "%s <- main line %d: %s" % (d.split(" = ")[0] if " = " in d else a, ln, d2), k2, ln, ls))
+                if k2 == "ownSlot":
+                    slot_tables.add(d2.split(" of ")[-1].split(" (")[0])
+                if ln in retry and not f2:
+                    retry_reads = True
+    if not any(e[1] == "theta_ML" for e in ents):
+        raise ExtractError("convert_params: no in-place write to theta_ML found (zero-snapping statement not recognised)")
+    # who else reads the slot tables: inside the loop only as T[i, ...]; not at all after the loop
+    other_rows, after = False, False
+    post = mn.body[mn.body.index(loop) + 1:]
+    for T in sorted(slot_tables):
+        ok_ids = set()
+        for n in ast.walk(loop):
+            if isinstance(n, ast.Subscript) and isinstance(n.value, ast.Name) and n.value.id == T:
+                i0 = n.slice.elts[0] if isinstance(n.slice, ast.Tuple) and n.slice.elts else n.slice
+                if isinstance(i0, ast.Name) and i0.id == loop.target.id:
+                    ok_ids.add(id(n.value))
+        for n in ast.walk(loop):
+            if isinstance(n, ast.Name) and n.id == T and id(n) not in ok_ids:
+                other_rows = True
+        for s_ in post:
+            if any(isinstance(n, ast.Name) and n.id == T for n in ast.walk(s_)):
+                after = True
+    ents.sort(key=lambda e: (e[0], e[1], e[4], e[2]))
+    t = ("\n/-! ### C07c: in-place writes of the Fisher stage (`main` loop + `convert_params`) and the origin of the written arrays\n"
+         "`fresh` = a new array local to the call; `ownSlot` = (a view of) ROW i of a table bound before the loop, i the loop variable: the\n"
+         "row's own stage-1 slot; `shared` = anything else that outlives the call (another row, a whole table, a module-level array, an\n"
+         "object not known to be new).  Writes into the row's own OUTPUT slot (`codelen[i]`, `params[i,:]`, ...: %d statements) are not\n"
+         "listed.  `callLine` = the call of `convert_params` in `main` through which the written argument arrives (0 = not an argument).\n"
+         "Rules: harness/extractors/_norm_c05.py. -/\n" % own)
+    t += "inductive WOrigin where | fresh | ownSlot | shared deriving Repr, DecidableEq\n\n"
+    t += "structure FisherWrite where\n  fn : String\n  target : String\n  origin : String\n  kind : WOrigin\n  callLine : Nat\n  deriving Repr, DecidableEq\n\n"
+    t += "def fisherWrites : List FisherWrite := [\n"
+    t += "\n".join("  ⟨%s, %s, %s, .%s, %d⟩%s   -- line%s %s" % (lstr(e[0]), lstr(e[1]), lstr(e[2]), e[3], e[4], "," if j + 1 < len(ents) else "",
+                                                              "s" if len(e[5]) > 1 else "", ", ".join(map(str, e[5]))) for j, e in enumerate(ents))
+    t += "\n]\n"
+    t += "/-- every array written in place is new inside the call or the row's own stage-1 slot -/\n"
+    t += "def fisherWritesRowLocal : Bool := fisherWrites.all (fun w => w.kind != .shared)\n"
+    t += "/-- the tables whose row i is written in place by row i -/\ndef slotTables : List String := %s\n" % llist(lstr(x) for x in sorted(slot_tables))
+    t += "/-- inside the loop a slot table is used otherwise than as `T[i, ...]` (i the loop variable) -/\ndef slotReadByOtherRows : Bool := %s\n" % ("true" if other_rows else "false")
+    t += "/-- a slot table is used after the loop (the snapped stage-1 values would reach the output through it) -/\ndef slotReadAfterLoop : Bool := %s\n" % ("true" if after else "false")
+    t += "/-- lines of the calls of convert_params: first attempt, retry inside `except NameError` -/\ndef attemptCalls : List Nat := %s\n" % llist(str(x) for x in first + retry)
+    t += ("/-- the retry receives an object that the first attempt may have written in place (same variable, bound once before the `try`,\n"
+          "not fresh): the second attempt starts from the vector as the first attempt LEFT it -/\n")
+    t += "def retryReadsSlot : Bool := %s\n" % ("true" if retry_reads else "false")
     return t
